@@ -35,9 +35,74 @@ def _eq(label, a, b, R=None, hyp=None):
   return [(label, g)]
 
 
+_CDF_PAIR_SCRIPT = """
+import numpy as np
+kw = args[0]
+cdf = mod('cdf_layer'); cc = mod('conditional_cdf')
+rng = np.random.RandomState(11)
+layer = cdf.CDF(num_keypoints=kw['num_keypoints'], units=kw['units'], activation=kw['activation'], reduction=kw['reduction'],
+                input_scaling_type=kw['input_scaling_type'], sparsity_factor=kw['sparsity_factor'], input_scaling_init=2.5)
+x = rng.uniform(-0.5, 1.5, size=(5, kw['input_dim'])).astype('float32')
+layer(tf.constant(x))
+worst = 0.0
+for trial in range(4):
+  layer.kernel.assign(rng.uniform(0.0, 1.0, size=tuple(layer.kernel.shape)).astype('float32'))
+  sc = None
+  if kw['input_scaling_type'] != 'fixed':
+    layer.input_scaling.assign(rng.uniform(0.5, 3.0, size=tuple(layer.input_scaling.shape)).astype('float32'))
+    sc = tf.identity(layer.input_scaling)
+  else:
+    sc = tf.constant([2.5])
+  a = layer(tf.constant(x)).numpy()
+  b = cc.cdf_fn(tf.constant(x), tf.identity(layer.kernel), sc, units=kw['units'], activation=kw['activation'],
+                reduction=kw['reduction'], sparsity_factor=kw['sparsity_factor']).numpy()
+  worst = max(worst, float(np.max(np.abs(a - b))) if a.shape == b.shape else 1e9)
+result = {'max_abs_difference': worst}
+"""
+
+_KFL_PAIR_SCRIPT = """
+import itertools
+import numpy as np
+spec = args[0]
+kl = mod('kronecker_factored_lattice_lib'); ll = mod('lattice_lib')
+L, U, D, T = spec['L'], spec['units'], spec['dims'], spec['terms']
+rng = np.random.RandomState(5)
+worst = 0.0
+for trial in range(4):
+  sc = rng.uniform(-1, 1, size=(U, T)); bias = rng.uniform(-1, 1, size=(U,)); w = rng.uniform(-1, 1, size=(1, L, U * D, T))
+  K = np.zeros((L ** D, U))
+  for fi, v in enumerate(itertools.product(range(L), repeat=D)):
+    for u in range(U):
+      K[fi, u] = bias[u] + sum(sc[u, t] * np.prod([w[0, v[d], u * D + d, t] for d in range(D)]) for t in range(T)) / T
+  shape = (6, U, D) if U > 1 else (6, D)
+  x = rng.uniform(-0.5, L - 0.5, size=shape)
+  a = kl.evaluate_with_hypercube_interpolation(tf.constant(x, 'float32'), tf.constant(sc, 'float32'), tf.constant(bias, 'float32'),
+                                               tf.constant(w, 'float32'), U, T, L, True).numpy()
+  b = ll.evaluate_with_hypercube_interpolation(tf.constant(x, 'float32'), tf.constant(K, 'float32'), U, [L] * D, True).numpy()
+  worst = max(worst, float(np.max(np.abs(a - b))) if a.shape == b.shape else 1e9)
+result = {'max_abs_difference': worst}
+"""
+
+
 class PairCase(Case):
   contract_key = None
   xcheck = False
+
+  def replay_desc(self, cfg, model, g):
+    """Bounded native differential search (random parameters) for the two most exposed pairs."""
+    if cfg['pair'] == 'cdf_fn_vs_layer':
+      return {'kind': 'script', 'code': _CDF_PAIR_SCRIPT, 'floatx': 'float32', 'args': [cfg['kw']], 'kwargs': {}}
+    if cfg['pair'] == 'kfl_vs_lattice':
+      return {'kind': 'script', 'code': _KFL_PAIR_SCRIPT, 'floatx': 'float32', 'args': [cfg], 'kwargs': {}}
+    return None
+
+  def replay_eval(self, cfg, model, g, desc, nat):
+    failing = []
+    if 'error' in nat:
+      return {'native': {k: v for k, v in nat.items() if k != 'trace'}, 'failing': [], 'note': 'native search could not run'}
+    if nat['ok']['max_abs_difference'] > 1e-4:
+      failing.append('the two representations differ by %g on random parameters' % nat['ok']['max_abs_difference'])
+    return {'native': nat, 'failing': failing, 'note': 'bounded native differential search, 4 random parameter draws'}
 
   def setup(self, cfg, c):
     c.int_cast_range = (0, 3)
